@@ -743,7 +743,10 @@ def _eval_move(ctx, case):
         if out is Pin or np.shares_memory(out, Pin):
             ctx.oracle_fail("move:input-modified", case, {"aliases": True})
             fails += 1
-        fails += _oracle_move(ctx, case, P, table, a, displ, np.asarray(out, dtype=float), pops, "")
+        if wf:
+            fails += _oracle_move(ctx, case, P, table, a, displ, np.asarray(out, dtype=float), pops, "")
+        else:
+            ctx.count("move:malformed-input-answered")      # outside the quantifier: nothing to judge it against
     else:
         ctx.count("move:error-" + (_errname(err) if err is not None else "?"))
     moved_others = out is not None and any(not np.array_equal(out[v], P[v]) for v in range(n) if v != a)
